@@ -1410,11 +1410,14 @@ namespace bloch::runtime {
                 // that object's destructor runs, or the output would depend on when the collector
                 // happened to run. Keep such references until teardown, exactly as if the garbage
                 // had never been collected.
-                if (f.type == Value::Type::Object && f.objectValue && f.objectValue->marked) {
+                // The same holds for an unreachable object that is not swept itself (its class has
+                // qubit or tracked fields): only the objects being swept (skipDestructor) may go.
+                if (f.type == Value::Type::Object && f.objectValue &&
+                    !f.objectValue->skipDestructor) {
                     m_limbo.push_back(f.objectValue);
                 } else if (f.type == Value::Type::ObjectArray) {
                     for (const auto& o : f.objectArray)
-                        if (o && o->marked)
+                        if (o && !o->skipDestructor)
                             m_limbo.push_back(o);
                 }
                 f = {};
